@@ -66,14 +66,14 @@ var Seeds = []Seed{
 	{"4k3/P7/8/8/8/8/7p/4K3 w - - 0 1", "promo quiet"},
 	{"1n2k3/P7/8/8/8/8/7p/4K1N1 w - - 0 1", "promo capture"},
 	{"r3k3/1P6/8/8/8/8/8/4K3 w q - 0 1", "promo capture-rook-right"},
-	{"3k4/4P3/8/8/8/8/8/4K3 w - - 0 1", "promo gives-check"},
+	{"6k1/4P3/8/8/8/8/8/4K3 w - - 0 1", "promo gives-check"},
 	// check evasion
 	{"4k3/8/8/8/8/5n2/4r3/4K3 w - - 0 1", "evasion double-check"},
 	{"4k3/8/8/8/1b6/8/3N4/4K2r w - - 0 1", "evasion pinned-blocker"},
 	{"4k3/4r3/8/8/8/8/4R3/4K3 w - - 0 1", "pin file"},
 	{"k7/8/8/8/8/2q5/3B4/4K3 w - - 0 1", "pin diag"},
 	// odd material
-	{"QQQQQQQQ/Q7/8/8/8/8/7k/K7 w - - 0 1", "odd nine-queens"},
+	{"QQQQQQQQ/Q7/8/8/8/8/7k/K7 b - - 0 1", "odd nine-queens"},
 	{"nnnnnnnn/nn6/8/8/8/8/8/K6k b - - 0 1", "odd ten-knights"},
 	{"4k3/8/8/8/8/8/8/RNBQKBNR w KQ - 0 1", "odd no-pawns"},
 	// low-branching fortresses and nets
